@@ -337,7 +337,11 @@ func init() {
 			p.Weights[KRedelegate] = 18
 			return tierSteps(p, tier)
 		},
-		Oracles:    func() []Oracle { return []Oracle{&OracleC20{}} },
+		Oracles: func() []Oracle {
+			// the amounts and completion times the queries report are the ones end-of-block uses:
+			// C02's ledger-vs-payout oracle runs as a sub-check
+			return []Oracle{&OracleC20{}, Relabel{OracleC02{}, "C20", "payout:"}}
+		},
 		NonTrivial: func(x *Exec) bool { return x.Has("c20:bucket>=2") || x.Has("c20:delegator-multi-pending") },
 		Rule:       "stateful rapid histories ('unbond' profile with more redelegations); after every step every unbonding/redelegation/delegation query is issued for every (delegator, validator, denom) of the world (paginated with varying limits) and compared with an independent enumeration of the primary records; undelegate(balance)/undelegate(balance+1) probes on discarded branches; contract bindings vs gRPC; non-trivial = state with a bucket of >=2 entries or a delegator with >=2 validators/denoms pending; distinct = distinct concrete op list",
 	})
